@@ -441,10 +441,10 @@ theorem Wrote.setSingle {d d' d'' : Ini} {s k v : Str} {o : IniSec} (w : Wrote d
 
 def generalBase (t : TreeInfo) : IniSec :=
   setsKV []
-    [("; WARNING.0".toList, "This section provides compatibility with pre-productmd treeinfos.".toList),
-     ("; WARNING.1".toList, "Read productmd documentation for details about new format.".toList),
+    [(kWarn0, vWarn0),
+     (kWarn1, vWarn1),
      (kName, t.release.name ++ ' ' :: t.release.version),
-     ("family".toList, t.release.name),
+     (kFamily, t.release.name),
      (kVersion, t.release.version),
      (kArch, t.tree.arch),
      (kPlatforms, platformsStr t.tree)]
@@ -453,11 +453,11 @@ def withOpt (k : Str) (v : Option Str) (g : IniSec) : IniSec := match v with | s
 
 /-- the final options of `[general]` -/
 def generalOpts (t : TreeInfo) (n : Int) (key : Str) (v : Variant) : IniSec :=
-  withOpt "repository".toList (generalPath t.tree.arch v.paths "repository".toList "source_repository".toList)
-    (withOpt "packagedir".toList (generalPath t.tree.arch v.paths "packages".toList "source_packages".toList)
+  withOpt kRepository (generalPath t.tree.arch v.paths "repository".toList "source_repository".toList)
+    (withOpt kPackagedir (generalPath t.tree.arch v.paths "packages".toList "source_packages".toList)
       (setKV tVariant key
         (setKV kVariants (Str.joinWith ',' (Ini.sortS (t.variants.map Variant.key)))
-          (setKV "timestamp".toList (Str.intStr n) (generalBase t)))))
+          (setKV kTimestamp (Str.intStr n) (generalBase t)))))
 
 theorem serGeneral_spec {t : TreeInfo} {mv : Option Str} {d d' : Ini} (h : serGeneral t mv d = .ok d') :
     ∃ n key v, t.tree.ts.toInt = .ok n ∧ chosenKey t.variants mv = .ok key ∧
